@@ -102,7 +102,7 @@ Converge(L, al, s, o) ==
       THEN {[al |-> c3.al, status |-> c3.status, ann |-> c3.ann, err |-> TRUE]}
     ELSE
       (* phase 2: PreferDualStack top-up, or a fresh allocation *)
-      LET c5 == IF Len(c4.lb) = 1 /\ sp.pol = "P"
+      LET c5 == IF Len(c4.lb) = 1 /\ sp.pol = "P" /\ sp.fam = "dual"
                 THEN LET x == AllocAdditionalRes(L, c4.al, s, c4.lb[1], c4.al[s].pool, r) IN
                      IF x.ok THEN [c4 EXCEPT !.al = x.al, !.lb = <<c4.lb[1], x.ip>>] ELSE c4
                 ELSE c4
@@ -130,7 +130,8 @@ Handle(L, al, s, o) ==
          res0 == IF c.err THEN "ErrorNoRetry" ELSE "Success"
          res1 == IF AllocKey(al, s) # AllocKey(c.al, s) THEN "ReprocessAll" ELSE res0
          changed == c.status # o.status \/ c.ann # o.ann
-         res2 == IF changed /\ prevIPs # <<>> /\ c.al[s] = NULL /\ PoolsFor(L, Range(prevIPs)) # {}
+         gaveUp == IF c.al[s] = NULL THEN TRUE ELSE ~(Range(prevIPs) \subseteq Range(c.al[s].ips))
+         res2 == IF changed /\ prevIPs # <<>> /\ gaveUp /\ PoolsFor(L, Range(prevIPs)) # {}
                  THEN "ReprocessAll" ELSE res1
      IN [al |-> c.al, res |-> res2, write |-> changed, status |-> c.status, ann |-> c.ann]
      : c \in Converge(L, al, s, o) }
